@@ -76,6 +76,7 @@ fn main() {
         "glue17" => glue::glue17(&mut out, thorough),
         "bookgen" => tables::bookgen(&mut out, thorough),
         "magicgen" => tables::magicgen(&mut out, thorough),
+        "referee11" => glue::referee11(&mut out, thorough, args.get(5).map(|s| s.as_str()).unwrap_or("")),
         "bot11" => engine::bot11(&mut out, thorough, args.get(5).map(|s| s.as_str()).unwrap_or("")),
         "c15" => engine::c15(&mut out, thorough, args.get(5).map(|s| s.as_str()).unwrap_or("")),
         _ => {
